@@ -44,6 +44,7 @@ every index of `m.indices` lies inside `prev`, `next`, `weights`, `vehicleRates`
 compute just before `Cost::enforce_strictly_positive`.
 -/
 import Compass.Gen.Decisions
+import Compass.Gen.Fns
 import Compass.Proofs.Num
 import Compass.Model.Cost
 import Compass.Proofs.Cost
@@ -1665,6 +1666,61 @@ theorem src_cost_non_negative {α : Type} [Field α] [LinearOrder α] [IsStrictO
     some (enforceNonNegative c) =
       (cost_non_negative.num c (zero : α)).map fun b => if b then (zero : α) else c := by
   simp [enforceNonNegative, cost_non_negative, Rel.num]
+
+
+/-! ### Generated function bodies
+
+`tools/gen_fns.py` re-translates the body of the Rust function on every run into `Compass/Gen/Fns.lean`
+(`Gen.<Type>_<fn>`; conventions in the header of the tool).  Each `gen_*_eq` theorem below says that the
+generated definition *is* the hand-written model function the property theorems are about.  A source
+change to the function changes the generated definition and the proof stops checking (a body the
+translator no longer recognises is not emitted: the theorem no longer elaborates). -/
+
+theorem gen_agg_fold1_eq {α : Type} [Field α] (cs : List (String × α)) (acc : α) :
+    Gen.CostAggregation_agg_fold1 cs acc = (cs.map (·.2)).foldl (· + ·) acc := by
+  induction cs generalizing acc with
+  | nil => simp [Gen.CostAggregation_agg_fold1]
+  | cons c cs ih => obtain ⟨s, c⟩ := c; simp [Gen.CostAggregation_agg_fold1, ih]
+
+theorem gen_agg_fold2_eq {α : Type} [Field α] (cs : List (String × α)) (acc : α) :
+    Gen.CostAggregation_agg_fold2 cs acc = (cs.map (·.2)).foldl (· * ·) acc := by
+  induction cs generalizing acc with
+  | nil => simp [Gen.CostAggregation_agg_fold2]
+  | cons c cs ih => obtain ⟨s, c⟩ := c; simp [Gen.CostAggregation_agg_fold2, ih]
+
+/-- `CostAggregation::agg` takes `(name, cost)` pairs; the model's `agg` the costs -/
+theorem gen_agg_eq {α : Type} [Field α] [LinearOrder α] [IsStrictOrderedRing α] [Lit α] [LawfulLit α] (a : CostAggregation) (cs : List (String × α)) :
+    Gen.CostAggregation_agg a cs = a.agg (cs.map (·.2)) := by
+  cases a with
+  | sum => simp [Gen.CostAggregation_agg, CostAggregation.agg, gen_agg_fold1_eq]
+  | mul => simp [Gen.CostAggregation_agg, CostAggregation.agg, gen_agg_fold2_eq]
+
+mutual
+theorem gen_map_value_eq {α : Type} [Field α] [LinearOrder α] [IsStrictOrderedRing α] [Lit α] [LawfulLit α] (r : VehicleCostRate α) (x : α) :
+    Gen.VehicleCostRate_map_value r x = r.mapValue x := by
+  cases r with
+  | zero => simp [Gen.VehicleCostRate_map_value, VehicleCostRate.mapValue]
+  | raw => simp [Gen.VehicleCostRate_map_value, VehicleCostRate.mapValue]
+  | factor f => simp [Gen.VehicleCostRate_map_value, VehicleCostRate.mapValue]
+  | offset o => simp [Gen.VehicleCostRate_map_value, VehicleCostRate.mapValue]
+  | combined rs =>
+    simp only [Gen.VehicleCostRate_map_value, VehicleCostRate.mapValue]
+    exact gen_map_value_fold_eq rs x
+theorem gen_map_value_fold_eq {α : Type} [Field α] [LinearOrder α] [IsStrictOrderedRing α] [Lit α] [LawfulLit α] (rs : List (VehicleCostRate α)) (x : α) :
+    Gen.VehicleCostRate_map_value_fold1 rs x = VehicleCostRate.mapValueList rs x := by
+  cases rs with
+  | nil => simp [Gen.VehicleCostRate_map_value_fold1, VehicleCostRate.mapValueList]
+  | cons r rs =>
+    simp only [Gen.VehicleCostRate_map_value_fold1, VehicleCostRate.mapValueList]
+    rw [gen_map_value_eq r x]
+    exact gen_map_value_fold_eq rs (r.mapValue x)
+end
+
+theorem gen_enforce_strictly_positive_eq {α : Type} [Field α] [LinearOrder α] [IsStrictOrderedRing α] [Lit α] [LawfulLit α] (c : α) :
+    Gen.Cost_enforce_strictly_positive c = enforceStrictlyPositive c := rfl
+
+theorem gen_enforce_non_negative_eq {α : Type} [Field α] [LinearOrder α] [IsStrictOrderedRing α] [Lit α] [LawfulLit α] (c : α) :
+    Gen.Cost_enforce_non_negative c = enforceNonNegative c := rfl
 
 end C07
 end Compass
